@@ -624,7 +624,8 @@ func c18Extras(rep *ev.Reporter, mu *sync.Mutex) int64 {
 			}
 		}
 	}
-	nums := []float64{0, -1, 7, -7.5, 0.1, 1e-7, 123456789.125, 9007199254740992, 1e15, 1e18, 1e20, 1e21, -1e20, 2147483648, 1.7976931348623157e308, 5e-324}
+	nums := []float64{0, -1, 7, -7.5, 0.1, 1e-7, 123456789.125, 9007199254740992, 1e15, 1e18, 1e20, 1e21, -1e20, 2147483648, 1.7976931348623157e308, 5e-324,
+		9223372036854775807, 9223372036854775808, -9223372036854775808, 9223372036854774784, 9223372036854777856, 18446744073709551615, 4611686018427387904} // 2^63 and its float64 neighbours, -2^63, 2^64-1, 2^62
 	for i, v := range nums {
 		for _, form := range []string{"const", "plain"} {
 			id := fmt.Sprintf("c18/numconst/%d/%s", i, form)
